@@ -220,6 +220,9 @@ type Exec struct {
 	trusted map[string]bool
 	executedInPlace map[*ssa.Function]bool
 	exclusions map[string]Term
+	fvCells map[string]*Cell
+	fvPtrs  map[*ssa.FreeVar]Val
+	immutKeys map[string]bool
 }
 
 func (x *Exec) note(format string, a ...interface{}) {
@@ -294,7 +297,7 @@ func (x *Exec) havocHeap(st *State, why string) {
 		if strings.HasPrefix(k, "G_") && x.L.immutableGlobal[k] {
 			continue
 		}
-		if x.L.immutableComp[k] {
+		if x.immutComp(k) {
 			continue
 		}
 		st.heap[k] = x.d.Fresh("hv_"+k, t.Sort)
@@ -303,7 +306,7 @@ func (x *Exec) havocHeap(st *State, why string) {
 	// mark by a per-path epoch so heapGet hands out fresh symbols.
 	for k, t := range x.entryHeap {
 		if _, ok := st.heap[k]; !ok {
-			if (strings.HasPrefix(k, "G_") && x.L.immutableGlobal[k]) || x.L.immutableComp[k] {
+			if (strings.HasPrefix(k, "G_") && x.L.immutableGlobal[k]) || x.immutComp(k) {
 				continue
 			}
 			st.heap[k] = x.d.Fresh("hv_"+k, t.Sort)
@@ -321,6 +324,24 @@ func (x *Exec) havocHeap(st *State, why string) {
 	st.topBase = x.d.Fresh("top", "Int")
 	st.assume(Ge(st.topBase, IntLit(0)))
 	st.topN = 0
+}
+
+// immutComp: heap components of fields declared `immutable` survive havoc.
+// The declaration itself is checked package-wide (structural obligation
+// immutable(T.f): no store outside the allocating function).
+func (x *Exec) immutComp(k string) bool {
+	if x.immutKeys == nil {
+		x.immutKeys = map[string]bool{}
+		for key := range x.cs.Immut {
+			// key: pkgpath.Type.field
+			j := strings.LastIndexByte(key, '.')
+			tf := key[:j]
+			i := strings.LastIndexByte(tf, '.')
+			pkgPath, tn, fn := tf[:i], tf[i+1:], key[j+1:]
+			x.immutKeys["F_S_"+sanitize(pkgShort(pkgPath)+"_"+tn)+"__"+sanitize(fn)] = true
+		}
+	}
+	return x.immutKeys[k]
 }
 
 func (x *Exec) freshRef(st *State) Term {
